@@ -48,7 +48,8 @@ Definition c14_list_model (l : list val) : list (bool * val) :=
     (false, VList (map_idx cb_map_idx l));
     (false, VList (map_values cb_map l));
     (false, VList (filter_any truthy l));
-    (false, reduce_any cb_reduce_any (VList []) l) ].
+    (false, reduce_any cb_reduce_any (VList []) l);
+    (false, reduce_any cb_reduce_any VNil l) ].
 
 Definition kv_val (kv : bytes * val) : val := VList [VStr (fst kv); snd kv].
 Definition c14_obj_model (kvs : list (bytes * val)) : list (bool * val) :=
